@@ -11,6 +11,7 @@ import (
 type Job struct {
 	Scn    string
 	Prefix []int
+	Keys   bool // compute a state key at every decision past the prefix (ExploreAll)
 }
 
 type Res struct {
@@ -140,6 +141,116 @@ func Explore(c *rt.Ctx, prop, scn string, bound int) Stats {
 		st.BoundDone = b
 	}
 	return st
+}
+
+// AllStats describes an unbounded exploration with state pruning.
+type AllStats struct {
+	Executions int
+	States     int // distinct state keys claimed (every alternative of each was expanded)
+	Pruned     int // decisions at which an execution reached an already claimed state and was cut
+	Outcomes   map[string]int
+	Complete   bool
+	MaxLen     int
+	MaxPre     int // largest number of preemptions in an explored execution
+}
+
+// ExploreAll enumerates the executions of a scenario WITHOUT a preemption bound. The search is a graph search over
+// state keys (sched.stateKey: store tables, backend ledger, and for every thread its position and everything it has
+// observed): the first execution that reaches a state claims it and spawns one child per alternative thread there;
+// an execution that reaches a claimed state is cut from that decision on (its continuation from there was, or will be,
+// produced by the claimant). Two executions with the same key have the same futures because every thread's local state
+// is a function of the results it observed and all shared state is in the key; the oracle of a complete execution is a
+// function of the final key. Executions are judged in job order, so the search tree is the same in every run.
+func ExploreAll(c *rt.Ctx, prop, scn string, known map[string]int) AllStats {
+	st := AllStats{Outcomes: map[string]int{}, Complete: true}
+	claimed := map[string]bool{}
+	frontier := [][]int{nil}
+	for len(frontier) > 0 {
+		if c.Expired() {
+			st.Complete = false
+			return st
+		}
+		jobs := make([]any, 0, len(frontier))
+		for _, p := range frontier {
+			jobs = append(jobs, Job{Scn: scn, Prefix: p, Keys: true})
+		}
+		todo := frontier
+		var next [][]int
+		c.Pool.Map(jobs, func(i int, r rt.JobResult) {
+			prefix := todo[i]
+			if r.Died {
+				c.Violate(prop+"/worker-died/"+scn, fmt.Sprintf("scenario %s: the process died under schedule %v: %s", scn, prefix, tailS(r.Stderr)), map[string]any{"scn": scn, "prefix": prefix})
+				return
+			}
+			var res Res
+			if err := json.Unmarshal(r.Out, &res); err != nil {
+				rt.HarnessError("bad worker result: %v", err)
+			}
+			if res.Err != "" {
+				rt.HarnessError("scenario %s schedule %v: %s", scn, prefix, res.Err)
+			}
+			st.Executions++
+			st.Outcomes[res.Outcome]++
+			if len(res.Trace) > st.MaxLen {
+				st.MaxLen = len(res.Trace)
+			}
+			pre := 0
+			for _, d := range res.Trace {
+				if d.RunningEnabled && d.Chosen != 0 {
+					pre++
+				}
+			}
+			if pre > st.MaxPre {
+				st.MaxPre = pre
+			}
+			c.Distinct(scn + "|" + res.Obs)
+			for _, v := range res.V {
+				if v.Property == "HARNESS" {
+					rt.HarnessError("scenario %s schedule %v: %s", scn, choices(res.Trace), v.What)
+				}
+				if !rt.HasProp(v.Property, prop) {
+					continue
+				}
+				c.Violate(prop+"/"+v.Key, fmt.Sprintf("[%s] schedule %v (%s): %s", scn, choices(res.Trace), describe(res.Trace), v.What), map[string]any{"scn": scn, "prefix": choices(res.Trace)})
+			}
+			for j := len(prefix); j < len(res.Trace); j++ {
+				d := res.Trace[j]
+				if d.Key == "" {
+					rt.HarnessError("scenario %s: no state key at decision %d", scn, j)
+				}
+				if claimed[d.Key] {
+					st.Pruned++
+					break
+				}
+				claimed[d.Key] = true
+				for alt := 1; alt < len(d.Enabled); alt++ {
+					next = append(next, append(append([]int{}, choices(res.Trace[:j])...), alt))
+				}
+			}
+		})
+		frontier = next
+	}
+	st.States = len(claimed)
+	// cross-check of the key: every outcome class the bounded search saw must have been reached by the pruned search
+	// (a key that merged states with different futures would lose outcomes)
+	for o := range known {
+		if st.Outcomes[o] == 0 {
+			rt.HarnessError("scenario %s: outcome %q was reached by the preemption-bounded search but not by the unbounded pruned search: the state key is too coarse", scn, o)
+		}
+	}
+	return st
+}
+
+func ReportAll(c *rt.Ctx, scn string, st AllStats) {
+	c.Count("states", int64(st.States))
+	c.Count("transitions", int64(st.Executions))
+	c.Count("traces_validated_against_impl", int64(st.Executions))
+	sc, _ := c.Cov["schedules_unbounded"].([]any)
+	c.Cov["schedules_unbounded"] = append(sc, map[string]any{"scenario": scn, "preemption_bound": "none", "executions": st.Executions, "distinct_state_keys": st.States,
+		"cut_at_claimed_state": st.Pruned, "distinct_outcomes": st.Outcomes, "longest_schedule": st.MaxLen, "most_preemptions_in_an_execution": st.MaxPre, "complete": st.Complete})
+	if !st.Complete {
+		c.Exhaustive = false
+	}
 }
 
 func choices(tr []Decision) []int {
